@@ -57,13 +57,109 @@ class Scope:
                     work.append(callee)
         self._fixpoint()
 
+    def _bound(self, meth):
+        """A method as it is called through an object: its parameters
+        without the receiver, so that they line up with the call's
+        arguments.  Same key, node and CFG as the method."""
+        if any(norm(d) == "staticmethod" for d in meth.node.decorator_list):
+            return meth
+        cache = self.__dict__.setdefault("_bound_views", {})
+        if meth.key not in cache:
+            class _BoundView(type(meth)):
+                @property
+                def params(self_):
+                    ps = type(meth).params.fget(self_)
+                    return ps[1:] if ps else ps
+            v = _BoundView(meth.module, meth.qualname, meth.node,
+                           cls=meth.cls, parent=meth.parent)
+            v._cfg = None
+            v.is_bound_view = True
+            cache[meth.key] = v
+        return cache[meth.key]
+
+    def _class_named(self, fn, name, table):
+        m = fn.module
+        head, _, rest = name.partition(".")
+        if "." not in name and name in m.classes:
+            return m.classes[name]
+        full = None
+        if head in table:
+            full = table[head] + ("." + rest if rest else "")
+        if full and full.startswith(PKG + "."):
+            modname, _, cname = full.rpartition(".")
+            mod = self.repo.modules.get(modname)
+            if mod and cname in mod.classes:
+                self.repo.consulted.add(modname)
+                return mod.classes[cname]
+        return None
+
+    def _class_of_call(self, fn, call, depth=0):
+        """Class of the object a call evaluates to: a constructor of the
+        package, or a function / method all of whose returns construct one
+        class."""
+        if depth > 2:
+            return None
+        h = self.resolve(fn, call)
+        if h is None:
+            return None
+        if h.qualname.endswith(".__init__") and h.cls is not None:
+            return h.cls
+        found = set()
+        for st in stmts_of(h.node):
+            if isinstance(st, ast.Return):
+                if not isinstance(st.value, ast.Call):
+                    return None
+                ci = self._class_of_call(h, st.value, depth + 1)
+                if ci is None:
+                    return None
+                found.add(ci.key)
+                last = ci
+        return last if len(found) == 1 else None
+
+    def _method(self, ci, mname):
+        for cc in self.repo.mro(ci):
+            if mname in cc.methods:
+                return self._bound(cc.methods[mname])
+        return None
+
     def resolve(self, fn, call):
-        """Resolve a call to a function of this repository (module-level
-        functions only, incl. through function-local imports)."""
+        """Resolve a call to a function of this repository: module-level
+        functions (incl. through function-local imports), constructors of
+        its classes, methods called through self or through a local that
+        holds a freshly constructed object."""
+        f_ = call.func
+        if isinstance(f_, ast.Attribute) and isinstance(f_.value, ast.Call):
+            # <constructor or factory call>.method(...)
+            ci = self._class_of_call(fn, f_.value)
+            if ci is not None:
+                return self._method(ci, f_.attr)
+            return None
         name = call_name(call)
         if not name:
             return None
         m = fn.module
+        if isinstance(f_, ast.Attribute) and isinstance(f_.value, ast.Name):
+            recv = f_.value.id
+            if recv == "self" and fn.cls is not None:
+                h = self._method(fn.cls, f_.attr)
+                if h is not None:
+                    return h
+            elif recv not in m.imports:
+                ds = [d for d in local_defs(fn.node).get(recv, [])
+                      if d.value is not None]
+                if len(ds) == 1 and isinstance(ds[0].value, ast.Call) and \
+                        ds[0].kind == "assign" and ds[0].index is None:
+                    tb = dict(m.imports)
+                    g_ = fn
+                    while g_ is not None:
+                        m._collect_imports(g_.node, tb)
+                        g_ = g_.parent
+                    ci = self._class_named(
+                        fn, call_name(ds[0].value) or "", tb)
+                    if ci is not None:
+                        h = self._method(ci, f_.attr)
+                        if h is not None:
+                            return h
         # function-local imports
         table = dict(m.imports)
         f = fn
@@ -82,6 +178,12 @@ class Scope:
             if mod and fname in mod.functions:
                 self.repo.consulted.add(modname)
                 return mod.functions[fname]
+        # a constructor of a class of the package
+        ci = self._class_named(fn, name, table)
+        if ci is not None and not any(
+                "Error" in (b or "") or "Exception" in (b or "")
+                for b in ci.base_names):
+            return self._method(ci, "__init__")
         return None
 
     def lib_name(self, fn, call):
@@ -108,8 +210,24 @@ class Scope:
     # -- taint --------------------------------------------------------
     def expr_tainted(self, fn, expr):
         t = self.taint[fn.key]
+        # an element (or view) of a trusted container is trusted whichever
+        # index selects it: the index sub-expressions of such a subscript do
+        # not taint the value
+        skip = set()
         for n in walk_local(expr):
+            if isinstance(n, ast.Subscript) and \
+                    isinstance(n.ctx, ast.Load) and \
+                    isinstance(n.value, ast.Name) and n.value.id not in t:
+                skip |= {id(x) for x in ast.walk(n.slice)}
+        for n in walk_local(expr):
+            if id(n) in skip:
+                continue
             if isinstance(n, ast.Name) and n.id in t:
+                return True
+            if isinstance(n, ast.Attribute) and \
+                    isinstance(n.value, ast.Name) and n.value.id == "self" \
+                    and isinstance(n.ctx, ast.Load) and \
+                    ("self." + n.attr) in t:
                 return True
             if isinstance(n, ast.Call):
                 if isinstance(n.func, ast.Attribute) and n.func.attr == "read" \
@@ -151,6 +269,26 @@ class Scope:
                             t.add(name)
                             changed = True
                             break
+                # state of the object: an attribute assigned from untrusted
+                # data is untrusted in every method of the class
+                if fn.cls is not None:
+                    for st in stmts_of(fn.node):
+                        if isinstance(st, ast.Assign) and \
+                                self.expr_tainted(fn, st.value):
+                            for tg in st.targets:
+                                if isinstance(tg, ast.Attribute) and \
+                                        isinstance(tg.value, ast.Name) and \
+                                        tg.value.id == "self":
+                                    an = "self." + tg.attr
+                                    for k2, f2 in self.funcs.items():
+                                        if f2.cls is not None and (
+                                                f2.cls is fn.cls or fn.cls in
+                                                self.repo.mro(f2.cls) or
+                                                f2.cls in
+                                                self.repo.mro(fn.cls)) and \
+                                                an not in self.taint[k2]:
+                                            self.taint[k2].add(an)
+                                            changed = True
                 for call in calls_in(fn.node):
                     callee = self.resolve(fn, call)
                     if callee is None:
